@@ -525,4 +525,9 @@ class MailboxSet(MailboxSetInterface[MailboxData]):
         if before == 'INBOX':
             raise NotSupportedError()  # TODO
         else:
-            self._layout.rename_folder(before, after, self.delimiter)
+            try:
+                self._layout.rename_folder(before, after, self.delimiter)
+            except FileNotFoundError as exc:
+                raise KeyError(before) from exc
+            except FileExistsError as exc:
+                raise ValueError(after) from exc
